@@ -236,9 +236,47 @@ class _ExprInliner(ast.NodeTransformer):
     visit_Lambda = visit_FunctionDef
 
 
+def _comp_with_helper_to_loop(M, fn, st: ast.stmt) -> Optional[List[ast.stmt]]:
+    """name = [f(x) for x in S (if c)] where f is a multi-statement private helper  ->  name = []; for x in S: (if c:) name.append(f(x))
+    (the helper is then inlined into the loop body by the next round)"""
+    if not (isinstance(st, ast.Assign) and len(st.targets) == 1 and isinstance(st.targets[0], ast.Name) and isinstance(st.value, ast.ListComp)
+            and len(st.value.generators) == 1 and not st.value.generators[0].is_async):
+        return None
+    lc = st.value
+    name = st.targets[0].id
+    if any(isinstance(n, ast.Name) and n.id == name for n in ast.walk(lc)):
+        return None
+    hs = [c for c in ast.walk(lc.elt) if isinstance(c, ast.Call) and _resolve_helper(M, fn, c) is not None and
+          _simple_helper(_resolve_helper(M, fn, c).node) in ("stmts", "tail")]
+    if not hs:
+        return None
+    g = lc.generators[0]
+    emit = ast.Expr(value=ast.Call(func=ast.Attribute(value=ast.Name(id=name, ctx=ast.Load()), attr="append", ctx=ast.Load()),
+                                   args=[lc.elt], keywords=[]))
+    body: List[ast.stmt] = [emit]
+    if g.ifs:
+        test = g.ifs[0] if len(g.ifs) == 1 else ast.BoolOp(op=ast.And(), values=list(g.ifs))
+        body = [ast.If(test=test, body=[emit], orelse=[])]
+    tgt = copy.deepcopy(g.target)
+    for t in ast.walk(tgt):
+        if isinstance(t, (ast.Name, ast.Tuple, ast.List)):
+            t.ctx = ast.Store()
+    loop = ast.For(target=tgt, iter=g.iter, body=body, orelse=[])
+    init = ast.Assign(targets=[ast.Name(id=name, ctx=ast.Store())], value=ast.List(elts=[], ctx=ast.Load()))
+    return [ast.fix_missing_locations(ast.copy_location(x, st)) for x in (init, loop)]
+
+
 def _inline_block(M, fn, stmts: List[ast.stmt], caller_locals: set, changed: List[str], depth: int) -> List[ast.stmt]:
     out: List[ast.stmt] = []
+    expanded: List[ast.stmt] = []
     for st in stmts:
+        rep = _comp_with_helper_to_loop(M, fn, st)
+        if rep is not None:
+            changed.append("comp->loop")
+            expanded.extend(rep)
+        else:
+            expanded.append(st)
+    for st in expanded:
         # recurse into compound statements first
         for fld in ("body", "orelse", "finalbody"):
             if hasattr(st, fld) and isinstance(getattr(st, fld), list) and not isinstance(st, (ast.FunctionDef, ast.AsyncFunctionDef, ast.ClassDef)):
@@ -301,7 +339,7 @@ def _inline_block(M, fn, stmts: List[ast.stmt], caller_locals: set, changed: Lis
         dead_names = None
         if isinstance(st, ast.Return):
             dead_names = {n.id for n in ast.walk(st) if isinstance(n, ast.Name)}
-        if isinstance(st, (ast.Expr, ast.Assign, ast.AugAssign, ast.AnnAssign, ast.Return)):
+        if isinstance(st, (ast.Expr, ast.Assign, ast.AugAssign, ast.AnnAssign, ast.Return, ast.For)):
             # a straight-line helper called inside the expression of a simple statement: its body is hoisted before the statement
             # (only calls evaluated unconditionally: not under a lambda / comprehension / conditional expression / and-or)
             def uncond_calls(e):
@@ -315,7 +353,7 @@ def _inline_block(M, fn, stmts: List[ast.stmt], caller_locals: set, changed: Lis
                         rec(ch)
                 rec(e)
                 return outc
-            val = getattr(st, "value", None)
+            val = st.iter if isinstance(st, ast.For) else getattr(st, "value", None)      # (the iterable of a for is evaluated once)
             for c_ in (uncond_calls(val) if val is not None else []):
                 if c_ is call:
                     continue
@@ -336,7 +374,10 @@ def _inline_block(M, fn, stmts: List[ast.stmt], caller_locals: set, changed: Lis
                             if n is c_:
                                 return ret2
                             return self.generic_visit(n)
-                    st = _Swap().visit(st)
+                    if isinstance(st, ast.For):
+                        st.iter = _Swap().visit(st.iter)
+                    else:
+                        st = _Swap().visit(st)
         if not isinstance(st, (ast.FunctionDef, ast.AsyncFunctionDef, ast.ClassDef, ast.For, ast.While, ast.If, ast.With, ast.Try)):
             st = _ExprInliner(M, fn, pre, changed).visit(st)
         else:
